@@ -1,6 +1,6 @@
 (* Properties_C04.v — C04 (library part): every hunk is applied or rejected, never lost, duplicated or
    half-applied; the reject count is the number of rejected hunks. *)
-From PatchV Require Import Base Lines Hunk Locator Options Applier Parser World Driver Spec_Locate Spec_Apply Proofs_Apply Proofs_Progress Proofs_Predict.
+From PatchV Require Import Base Lines Hunk Locator Options Applier Parser World Driver Spec_Locate Spec_Apply Proofs_Apply Proofs_Progress Proofs_Predict Formatter LineParser Proofs_Status Proofs_StatusDriver Proofs_StatusParse.
 
 (* The output of apply_patch is the replay of a verdict list over the hunks it was given (as left in the
    patch: reversed when the patch was reversed, start lines shifted for rejects — replay only reads the
@@ -53,3 +53,472 @@ Theorem section_failure_flag : forall o st ftp outf op op1 needed ar s2,
        (fun y => had_failure (fst y) = had_failure st || negb (Nat.eqb (r_failed ar) 0) || leftover o ar).
 Proof. exact Proofs_Predict.section_failure_flag. Qed.
 Print Assumptions section_failure_flag.
+
+(* ---------------------------------------------------------------------------------------------------------------
+   C04 over apply_patch and the driver model: failing to place a hunk never throws; the reject file is written iff some hunk
+   failed (and never under --dry-run); the exit status tells the truth; what an exception (status 2) can come from.
+   Proofs in Proofs_Status.v, Proofs_StatusDriver.v, Proofs_StatusParse.v. *)
+
+(* ---------------------------------------------------------------------------------------------------------------
+   (1) failing to place a hunk never throws
+   --------------------------------------------------------------------------------------------------------------- *)
+
+(* The reject writer in context form answers exactly on the hunks whose stated counts are not met too early by the body
+   (count negative, or at least the number of lines of that side) and of which one count is the true one.
+   n_old / n_new: numbers of lines of the old / new side of the body. *)
+Theorem write_hunk_as_context_iff : forall h,
+  (exists t, write_hunk_as_context h = Ok t) <->
+  ((rcount (oldr h) < 0 \/ Z.of_nat (n_old (body h)) <= rcount (oldr h))%Z /\
+   (rcount (newr h) < 0 \/ Z.of_nat (n_new (body h)) <= rcount (newr h))%Z /\
+   (Z.of_nat (n_new (body h)) = rcount (newr h) \/ Z.of_nat (n_old (body h)) = rcount (oldr h))).
+Proof. exact Proofs_Status.write_hunk_as_context_iff. Qed.
+Print Assumptions write_hunk_as_context_iff.
+
+(* in particular on every hunk whose two counts are the numbers of lines of its two sides *)
+Theorem counts_ok_writable : forall h, hunk_counts_ok h -> ctx_writable h.
+Proof. exact Proofs_Status.counts_ok_writable. Qed.
+Print Assumptions counts_ok_writable.
+
+(* Without -D: when every hunk can be written by the reject writer (always so in unified form), apply_patch ends normally
+   unless the question "reversed (or previously applied) patch?" has to be asked, and there is no terminal:
+   question_needed o lines p = the first hunk of the patch (reversed first under -R) does not fit perfectly and -f was not
+   given, it fits reversed (perfectly, or at all when it does not fit as it stands), and neither -t nor -N is given. *)
+Theorem apply_never_fatal : forall o lines p,
+  define_macro o = [] ->
+  (should_write_as_unified o p = true \/ Forall ctx_writable (hunks p)) ->
+  ~ question_needed o lines p ->
+  exists r, apply_patch o lines p = Ok r.
+Proof. exact Proofs_Status.apply_never_fatal. Qed.
+Print Assumptions apply_never_fatal.
+
+(* the question is never needed under -f, -t or -N *)
+Theorem never_asks_no_question : forall o lines p,
+  (force o = true \/ batch o = true \/ ignore_reversed o = true) -> ~ question_needed o lines p.
+Proof. exact Proofs_Status.never_asks_no_question. Qed.
+Print Assumptions never_asks_no_question.
+
+(* and it is exactly what stands between a patch with writable hunks and a normal end *)
+Theorem apply_patch_ok_iff : forall o lines p,
+  define_macro o = [] ->
+  (should_write_as_unified o p = true \/ Forall ctx_writable (hunks p)) ->
+  ((exists r, apply_patch o lines p = Ok r) <-> ~ question_needed o lines p).
+Proof. exact Proofs_Status.apply_patch_ok_iff. Qed.
+Print Assumptions apply_patch_ok_iff.
+
+Theorem question_throws : forall o lines p, question_needed o lines p -> apply_patch o lines p = Throw ESystem.
+Proof. exact Proofs_Status.question_throws. Qed.
+Print Assumptions question_throws.
+
+(* What -D needs: under -D a placed hunk whose old count is not the number of its old-side lines can have a deleted line
+   beyond the end of the file (EOutOfRange from .at()); with both counts right (the new count matters when the patch is
+   reversed) nothing is ever thrown, whatever the reject format. *)
+Theorem apply_never_fatal_define : forall o lines p,
+  Forall hunk_counts_ok (hunks p) ->
+  ~ question_needed o lines p ->
+  exists r, apply_patch o lines p = Ok r.
+Proof. exact Proofs_Status.apply_never_fatal_define. Qed.
+Print Assumptions apply_never_fatal_define.
+
+(* every exception of apply_patch, for any option record:
+   ERuntime     — the reject format is context and some hunk is not writable;
+   EOutOfRange  — -D is given and some hunk has a wrong count;
+   ESystem      — the question has to be asked. *)
+Theorem apply_patch_throws_only_from : forall o lines p e,
+  apply_patch o lines p = Throw e ->
+  ((e = ERuntime /\ should_write_as_unified o p = false /\ Exists (fun h => ~ ctx_writable h) (hunks p)) \/
+   (e = EOutOfRange /\ define_macro o <> [] /\ Exists (fun h => ~ old_count_ok h \/ ~ new_count_ok h) (hunks p))) \/
+  (e = ESystem /\ question_needed o lines p).
+Proof. exact Proofs_Status.apply_patch_throws_only_from. Qed.
+Print Assumptions apply_patch_throws_only_from.
+
+(* ---------------------------------------------------------------------------------------------------------------
+   (2) the reject file is written exactly when some hunk failed
+   --------------------------------------------------------------------------------------------------------------- *)
+
+(* A section that is not refused (sec_refused: target exists and is no regular file, or is read-only under
+   --read-only=fail) and ends normally.  ar = the result of apply_patch on the lines of the target (sec_apply spells out
+   which lines and which patch record).  Among the operations the section performed, the writing of the reject file occurs
+   exactly when some hunk failed outside --dry-run, and it writes what apply_patch collected.
+   The two side conditions keep other writes of the section apart from it: the reject file is not the output file (so with
+   reject_file_path o = [], see reject_path_default), and the backup name of the output file is not the reject file. *)
+Theorem section_reject_iff : forall o st should p s w y w',
+  process_section o st should p s w = (Ok y, w') ->
+  let outf := sec_out o st p (fs w) in
+  let rp := reject_path o outf in
+  rp <> outf -> backup_name o outf <> rp ->
+  sec_refused o st p (fs w) = false ->
+  exists ar ext, sec_apply o st should p s (fs w) = Ok ar /\ trace w' = trace w ++ ext /\
+    forall data, In (OWrite rp data) ext <-> (dry_run o = false /\ r_failed ar <> 0 /\ data = r_rej ar).
+Proof. exact Proofs_StatusDriver.section_reject_iff. Qed.
+Print Assumptions section_reject_iff.
+
+(* a refused section writes all its hunks to the reject file, and nothing else *)
+Theorem section_refused_rejects : forall o st should p s w y w',
+  process_section o st should p s w = (Ok y, w') ->
+  sec_refused o st p (fs w) = true ->
+  let rp := reject_path o (sec_out o st p (fs w)) in
+  exists p2 s2 ext, sec_body should p s = Ok (p2, s2) /\ snd y = s2 /\ trace w' = trace w ++ ext /\
+    forall q data, In (OWrite q data) ext <-> (dry_run o = false /\ q = rp /\ reject_all o p2 (hunks p2) 0 = Ok data).
+Proof. exact Proofs_StatusDriver.section_refused_rejects. Qed.
+Print Assumptions section_refused_rejects.
+
+(* with --dry-run a section writes no file at all, however it ends *)
+Theorem section_dry_run_writes_nothing : forall o st should p s w,
+  dry_run o = true ->
+  exists ext, trace (snd (process_section o st should p s w)) = trace w ++ ext /\ forall q data, ~ In (OWrite q data) ext.
+Proof. exact Proofs_StatusDriver.section_dry_run_writes_nothing. Qed.
+Print Assumptions section_dry_run_writes_nothing.
+
+(* the side conditions of section_reject_iff under the default names *)
+Lemma reject_path_default o outf : reject_file_path o = [] -> reject_path o outf <> outf.
+Proof.
+  intros H. unfold reject_path. rewrite H. cbn [is_nil]. intros E.
+  apply (f_equal (@length N)) in E. rewrite app_length in E. cbn in E. lia.
+Qed.
+
+Lemma backup_name_default o outf :
+  reject_file_path o = [] -> backup_prefix o = [] -> backup_suffix o = [] -> backup_name o outf <> reject_path o outf.
+Proof.
+  intros H1 H2 H3. unfold reject_path, backup_name. rewrite H1, H2, H3. cbn [is_nil negb andb]. intros E.
+  apply app_inv_head in E. discriminate.
+Qed.
+
+(* ---------------------------------------------------------------------------------------------------------------
+   (3) the exit status
+   --------------------------------------------------------------------------------------------------------------- *)
+
+(* the flag after one section: set before, or this section failed.  sec_outcome: refused / applied with result ar;
+   outcome_failed: binary patch, refusal, r_failed ar <> 0 (rejected hunk; a skipped patch has all its hunks rejected),
+   or leftover o ar (deletion that leaves content behind: "Not deleting file") *)
+Theorem section_flag : forall o st should p s w y w',
+  process_section o st should p s w = (Ok y, w') ->
+  exists x, sec_outcome o st should p s (fs w) = Some x /\
+            had_failure (fst y) = had_failure st || outcome_failed o x.
+Proof. exact Proofs_StatusDriver.section_flag. Qed.
+Print Assumptions section_flag.
+
+(* the flag after the loop over sections: set before, or one of the sections met failed *)
+Theorem loop_flag : forall o f fuel st s first w st' w',
+  section_loop fuel o f st s first w = (Ok st', w') ->
+  had_failure st' = had_failure st || existsb (outcome_failed o) (outcomes_met fuel o f st s w).
+Proof. exact Proofs_StatusDriver.loop_flag. Qed.
+Print Assumptions loop_flag.
+
+(* A run that ends normally: the status is 0 exactly when none of the sections met failed, 1 exactly when one did. *)
+Theorem exit_status_truth : forall o bytes w code ev w' f,
+  process_patch o bytes w = (Ok (code, ev), w') -> format_from_options o = Ok f ->
+  let met := outcomes_met (S (S (length bytes))) o f st_init (stream_of bytes) w in
+  (code = 0 <-> Forall (fun x => outcome_failed o x = false) met) /\
+  (code = 1 <-> Exists (fun x => outcome_failed o x = true) met) /\
+  (code = 0 \/ code = 1).
+Proof. exact Proofs_StatusDriver.exit_status_zero_iff. Qed.
+Print Assumptions exit_status_truth.
+
+(* status 2 exactly when an exception reaches main *)
+Theorem run_exit_status : forall o stdin w,
+  let m := (let! b := patch_file_bytes o stdin in process_patch o b) in
+  (rr_exit (run_patch o stdin w) = 2 <-> exists e, fst (m w) = Throw e) /\
+  (rr_exit (run_patch o stdin w) = 0 \/ rr_exit (run_patch o stdin w) = 1 \/ rr_exit (run_patch o stdin w) = 2).
+Proof. exact Proofs_StatusDriver.run_exit_status. Qed.
+Print Assumptions run_exit_status.
+
+(* and an exception has one of the causes listed in Proofs_StatusDriver.cause, each with its evidence (explains): option
+   not supported, first section not a patch, parse error of a header / a body (the parser's own Throw on that input),
+   no file name / prerequisite and nobody to ask, apply_patch's Throw (see apply_patch_throws_only_from), the reject
+   writer's Throw in a refusal, a failed operation (the last one of the trace), a directory as target, an empty name. *)
+Theorem run_throws_only_from : forall o stdin w e w',
+  (let! b := patch_file_bytes o stdin in process_patch o b) w = (Throw e, w') ->
+  exists c, c <> CFuel /\ explains o c e w'.
+Proof. exact Proofs_StatusDriver.run_throws_only_from. Qed.
+Print Assumptions run_throws_only_from.
+
+(* a patch skipped as already applied (-N) counts as failed: all its hunks are rejected *)
+Theorem skipped_is_failed : forall o lines p r, apply_patch o lines p = Ok r -> r_skipped r = true -> r_failed r <> 0.
+Proof. exact Proofs_Status.skipped_is_failed. Qed.
+Print Assumptions skipped_is_failed.
+
+(* what a section reports: the per-hunk lines and, when hunks failed, the summary with the number of rejected hunks *)
+Theorem section_report : forall o st should p s w y w',
+  process_section o st should p s w = (Ok y, w') ->
+  sec_refused o st p (fs w) = false ->
+  exists ar, sec_apply o st should p s (fs w) = Ok ar /\
+    events (fst y) = events st ++ r_msgs ar ++
+      (if Nat.eqb (r_failed ar) 0 then []
+       else inform_hunks_failed (if r_skipped ar then bs "ignored" else bs "FAILED") (length (hunks (r_patch ar))) (r_failed ar) ++ [10%N]).
+Proof. exact Proofs_StatusDriver.section_report. Qed.
+Print Assumptions section_report.
+
+(* ---------------------------------------------------------------------------------------------------------------
+   syntactically well-formed patches: what the unified parser hands over satisfies the hypothesis of (1), so for unified
+   and git patches "failing to place a hunk is never a fatal error" holds without side condition
+   --------------------------------------------------------------------------------------------------------------- *)
+Theorem parse_unified_counts : forall s hs s', parse_unified_patch s = Ok (hs, s') -> Forall hunk_counts_ok hs.
+Proof. exact Proofs_StatusParse.parse_unified_counts. Qed.
+Print Assumptions parse_unified_counts.
+
+(* the header scan delivers a record without hunks *)
+Theorem header_full_hunks : forall f strip s should p s1 found,
+  parse_patch_header_full (empty_patch f) strip s = Ok (should, p, s1, found) -> hunks p = [].
+Proof. exact Proofs_StatusParse.header_full_hunks. Qed.
+Print Assumptions header_full_hunks.
+
+Theorem parsed_unified_never_fatal : forall o lines p s p' s',
+  (pfmt p = FUnified \/ pfmt p = FGit) -> hunks p = [] ->
+  parse_patch_body p s = Ok (p', s') ->
+  ~ question_needed o lines p' ->
+  exists r, apply_patch o lines p' = Ok r.
+Proof. exact Proofs_StatusParse.parsed_unified_never_fatal. Qed.
+Print Assumptions parsed_unified_never_fatal.
+
+(* benign_cause o c: c is neither "the reject writer threw in a refusal" nor the model's fuel, and when it is "apply_patch
+   threw" then the question had to be asked.  One section of a unified or git patch, any options, any tree: *)
+Theorem unified_section_hunk_failure_never_fatal : forall o st should p s w e w',
+  (pfmt p = FUnified \/ pfmt p = FGit) -> hunks p = [] ->
+  process_section o st should p s w = (Throw e, w') ->
+  exists c, benign_cause o c /\ explains o c e w'.
+Proof. exact Proofs_StatusParse.unified_section_hunk_failure_never_fatal. Qed.
+Print Assumptions unified_section_hunk_failure_never_fatal.
+
+(* a whole run under -u *)
+Theorem unified_run_hunk_failure_never_fatal : forall o stdin w e w',
+  format_from_options o = Ok FUnified ->
+  (let! b := patch_file_bytes o stdin in process_patch o b) w = (Throw e, w') ->
+  exists c, benign_cause o c /\ explains o c e w'.
+Proof. exact Proofs_StatusParse.unified_run_hunk_failure_never_fatal. Qed.
+Print Assumptions unified_run_hunk_failure_never_fatal.
+
+(* the general form: any property G of patch records kept by the body parser and by set_oper, true of what the header scan
+   delivers, and which gives every hunk the right counts *)
+Theorem run_hunk_failure_never_fatal : forall o (G : patch -> Prop) stdin w e w',
+  (forall q s q' s', G q -> parse_patch_body q s = Ok (q', s') -> G q') ->
+  (forall q x, G q -> G (set_oper q x)) ->
+  (forall q, G q -> Forall hunk_counts_ok (hunks q)) ->
+  (forall f strip s should p s1 found, format_from_options o = Ok f ->
+     parse_patch_header_full (empty_patch f) strip s = Ok (should, p, s1, found) -> G p) ->
+  (let! b := patch_file_bytes o stdin in process_patch o b) w = (Throw e, w') ->
+  exists c, benign_cause o c /\ explains o c e w'.
+Proof. exact Proofs_StatusDriver.run_hunk_failure_never_fatal. Qed.
+Print Assumptions run_hunk_failure_never_fatal.
+
+(* ---------------------------------------------------------------------------------------------------------------
+   non-vacuity
+   --------------------------------------------------------------------------------------------------------------- *)
+Local Open Scope string_scope.
+Definition nlb : list N := [10%N].
+Fixpoint cat (l : list String.string) : list N := match l with [] => [] | x :: r => bs x ++ nlb ++ cat r end.
+Definition exl (s : String.string) := mkLine (bs s) LF.
+
+Definition sx_f := [exl "x"; exl "a"; exl "b"; exl "c"].
+Definition sx_h1 := mkHunk (mkRange 2 1) (mkRange 2 1) [mkPL Del (exl "a"); mkPL Add (exl "A")].
+Definition sx_h2 := mkHunk (mkRange 4 1) (mkRange 4 1) [mkPL Del (exl "q"); mkPL Add (exl "Q")].
+(* a context patch: its rejects are written in context form *)
+Definition sx_p := mkPatch FContext OpChange [] [] (bs "f") (bs "f") [] [] 0 0 [sx_h1; sx_h2].
+
+(* (1): the hypotheses hold, one hunk is applied, the other is rejected, nothing is thrown *)
+Example apply_never_fatal_nonvacuous :
+  define_macro default_options = [] /\
+  should_write_as_unified default_options sx_p = false /\
+  Forall ctx_writable (hunks sx_p) /\
+  ~ question_needed default_options sx_f sx_p /\
+  match apply_patch default_options sx_f sx_p with
+  | Ok r => r_out r = [exl "x"; exl "A"; exl "b"; exl "c"] /\ r_failed r = 1 /\ r_rej r <> []
+  | Throw _ => False
+  end.
+Proof.
+  split; [reflexivity|]. split; [reflexivity|]. split.
+  - repeat constructor; unfold ctx_writable; cbn; lia.
+  - split.
+    + intros (_ & H & _). vm_compute in H. discriminate.
+    + vm_compute. repeat split; try reflexivity. discriminate.
+Qed.
+
+(* the hypothesis on the hunks is needed: the same patch with a wrong old count in the hunk that fails to apply is fatal
+   (std::runtime_error from the reject writer: "failing to place a hunk" is fatal here) *)
+Definition sx_h2_bad := mkHunk (mkRange 4 3) (mkRange 4 2) [mkPL Del (exl "q"); mkPL Add (exl "Q")].
+Definition sx_p_bad := mkPatch FContext OpChange [] [] (bs "f") (bs "f") [] [] 0 0 [sx_h1; sx_h2_bad].
+Example unwritable_hunk_is_fatal :
+  ~ ctx_writable sx_h2_bad /\ apply_patch default_options sx_f sx_p_bad = Throw ERuntime.
+Proof. split; [unfold ctx_writable; cbn; lia|vm_compute; reflexivity]. Qed.
+
+(* the question: the patch fits reversed; without -t / -N / -f the run dies for lack of a terminal, with -t it goes on *)
+Definition sx_p_rev := mkPatch FUnified OpChange [] [] (bs "f") (bs "f") [] [] 0 0
+  [mkHunk (mkRange 2 1) (mkRange 2 1) [mkPL Del (exl "A"); mkPL Add (exl "a")]].
+Definition batch_options : options :=
+  mkOptions false false [] [] false [] false false false [] (-1)%Z 2%Z false [] []
+            false true false false false false false false OBUnset OBUnset MNative RFDefault ROWarn QSUnset [] [].
+Example question_nonvacuous :
+  question_needed default_options sx_f sx_p_rev /\
+  apply_patch default_options sx_f sx_p_rev = Throw ESystem /\
+  match apply_patch batch_options sx_f sx_p_rev with Ok r => r_failed r = 0 | Throw _ => False end.
+Proof. split; [|split]; vm_compute; auto. Qed.
+
+(* what -D needs: a placed hunk with a wrong old count throws EOutOfRange *)
+Definition define_options : options :=
+  mkOptions false false [] (bs "SYM") false [] false false false [] (-1)%Z 2%Z false [] []
+            true false false false false false false false OBUnset OBUnset MNative RFDefault ROWarn QSUnset [] [].
+Definition sx_p_def := mkPatch FUnified OpChange [] [] (bs "f") (bs "f") [] [] 0 0
+  [mkHunk (mkRange 4 0) (mkRange 5 1) [mkPL Del (exl "z"); mkPL Add (exl "Z")]].
+Example define_needs_counts : apply_patch define_options sx_f sx_p_def = Throw EOutOfRange.
+Proof. vm_compute. reflexivity. Qed.
+
+(* (2) and (3): a run over two files; the second hunk of the first file fails *)
+Definition sx_bytes := cat ["--- f"; "+++ f"; "@@ -2,1 +2,1 @@"; "-a"; "+A"; "@@ -4,1 +4,1 @@"; "-q"; "+Q";
+                            "--- g"; "+++ g"; "@@ -1,1 +1,1 @@"; "-c"; "+d"].
+Definition sx_w := mkWorld [(bs "f", Reg (cat ["x"; "a"; "b"; "c"]) 420); (bs "g", Reg (cat ["c"]) 420)] 18 [] None [].
+Definition sx_rej := cat ["--- f"; "+++ f"; "@@ -4 +4 @@"; "-q"; "+Q"].
+
+Example section_reject_nonvacuous :
+  match parse_patch_header_full (empty_patch FUnknown) (strip_size default_options) (stream_of sx_bytes) with
+  | Ok (should, p, s1, found) =>
+      match process_section default_options st_init should p s1 sx_w with
+      | (Ok y, w') =>
+          sec_refused default_options st_init p (fs sx_w) = false /\
+          sec_out default_options st_init p (fs sx_w) = bs "f" /\
+          reject_path default_options (bs "f") = bs "f.rej" /\
+          backup_name default_options (bs "f") <> bs "f.rej" /\
+          match sec_apply default_options st_init should p s1 (fs sx_w) with
+          | Ok ar => r_failed ar = 1 /\ r_rej ar = sx_rej
+          | Throw _ => False
+          end /\
+          trace w' = [OOpenRead (bs "f"); OWrite (bs "f.rej") sx_rej; OWrite (bs "f") (cat ["x"; "A"; "b"; "c"]); OChmod (bs "f") 420] /\
+          had_failure (fst y) = true
+      | _ => False
+      end
+  | Throw _ => False
+  end.
+Proof. vm_compute. repeat split; try reflexivity. discriminate. Qed.
+
+Example exit_status_nonvacuous :
+  match process_patch default_options sx_bytes sx_w with
+  | (Ok (code, ev), w') =>
+      code = 1 /\
+      In (OWrite (bs "f.rej") sx_rej) (trace w') /\ (forall data, ~ In (OWrite (bs "g.rej") data) (trace w')) /\
+      match outcomes_met (S (S (length sx_bytes))) default_options FUnknown st_init (stream_of sx_bytes) sx_w with
+      | [OutApplied t1 ar1; OutApplied t2 ar2] => t1 = bs "f" /\ r_failed ar1 = 1 /\ t2 = bs "g" /\ r_failed ar2 = 0 /\ leftover default_options ar2 = false
+      | _ => False
+      end
+  | _ => False
+  end.
+Proof.
+  vm_compute. repeat split; try reflexivity.
+  - right. left. reflexivity.
+  - intros data H. repeat (destruct H as [H|H]; [discriminate|]). exact H.
+Qed.
+
+(* the same patch applied to a tree where everything fits: status 0 *)
+Definition sx_w_ok := mkWorld [(bs "f", Reg (cat ["x"; "a"; "b"; "q"]) 420); (bs "g", Reg (cat ["c"]) 420)] 18 [] None [].
+Example exit_status_zero :
+  match process_patch default_options sx_bytes sx_w_ok with
+  | (Ok (code, ev), w') => code = 0 /\ forall q data, In (OWrite q data) (trace w') -> q = bs "f" \/ q = bs "g"
+  | _ => False
+  end.
+Proof.
+  vm_compute. split; [reflexivity|]. intros q data H.
+  repeat (destruct H as [H|H]; [try discriminate; inversion H; auto|]). destruct H.
+Qed.
+
+(* exit status 2 and its cause: the target of the second section is missing *)
+Definition sx_w_missing := mkWorld [(bs "f", Reg (cat ["x"; "a"; "b"; "q"]) 420)] 18 [] None [].
+Example exit_status_two :
+  rr_exit (run_patch default_options sx_bytes sx_w_missing) = 2 /\
+  match (let! b := patch_file_bytes default_options sx_bytes in process_patch default_options b) sx_w_missing with
+  | (Throw e, w') => explains default_options CNoFileName e w'
+  | _ => False
+  end.
+Proof. vm_compute. split; reflexivity. Qed.
+
+(* the other causes of status 1, one by one *)
+(* a deletion that leaves content behind ("Not deleting file f as content differs from patch"), under -E *)
+Definition remove_empty_options : options :=
+  mkOptions false false [] [] false [] false false false [] (-1)%Z 2%Z false [] []
+            false false false false false false false false OBUnset OBYes MNative RFDefault ROWarn QSUnset [] [].
+Definition sx_del_bytes := cat ["--- f"; "+++ /dev/null"; "@@ -1,2 +0,0 @@"; "-x"; "-a"].
+Example leftover_nonvacuous :
+  match process_patch remove_empty_options sx_del_bytes sx_w with
+  | (Ok (code, ev), w') =>
+      code = 1 /\
+      match outcomes_met (S (S (length sx_del_bytes))) remove_empty_options FUnknown st_init (stream_of sx_del_bytes) sx_w with
+      | [OutApplied t ar] => r_failed ar = 0 /\ leftover remove_empty_options ar = true
+      | _ => False
+      end
+  | _ => False
+  end.
+Proof. vm_compute. repeat split; reflexivity. Qed.
+
+(* a refusal: the target is a directory *)
+Definition sx_w_dir := mkWorld [(bs "f", Dir 493)] 18 [] None [].
+Example refused_nonvacuous :
+  match process_patch default_options sx_bytes sx_w_dir with
+  | (Ok (code, ev), w') => False
+  | (Throw e, w') =>
+      (* the first section is refused (all hunks to f.rej, flag set); the second has no target: exit status 2 *)
+      In (OWrite (bs "f.rej") (cat ["--- f"; "+++ f"; "@@ -2 +2 @@"; "-a"; "+A"; "@@ -4 +4 @@"; "-q"; "+Q"])) (trace w') /\ e = ESystem
+  end.
+Proof. vm_compute. split; [left; reflexivity|reflexivity]. Qed.
+
+Definition sx_one_bytes := cat ["--- f"; "+++ f"; "@@ -2,1 +2,1 @@"; "-a"; "+A"].
+Example refused_status_one :
+  match process_patch default_options sx_one_bytes sx_w_dir with
+  | (Ok (code, ev), w') =>
+      code = 1 /\ outcomes_met (S (S (length sx_one_bytes))) default_options FUnknown st_init (stream_of sx_one_bytes) sx_w_dir = [OutRefused (bs "f")]
+  | _ => False
+  end.
+Proof. vm_compute. split; reflexivity. Qed.
+
+(* --dry-run: same status, nothing written *)
+Definition dry_options : options :=
+  mkOptions false false [] [] false [] false false false [] (-1)%Z 2%Z false [] []
+            false false false false false false true false OBUnset OBUnset MNative RFDefault ROWarn QSUnset [] [].
+Example dry_run_nonvacuous :
+  match process_patch dry_options sx_bytes sx_w with
+  | (Ok (code, ev), w') => code = 1 /\ trace w' = [OOpenRead (bs "f"); OOpenRead (bs "g")] /\ fs w' = fs sx_w
+  | _ => False
+  end.
+Proof. vm_compute. repeat split; reflexivity. Qed.
+
+(* ---------------------------------------------------------------------------------------------------------------
+   findings (the model mirrors the program: reject files are opened with std::ios::trunc by every section)
+   --------------------------------------------------------------------------------------------------------------- *)
+(* F1: with -r FILE, two sections with failed hunks: the second section truncates the reject file; the hunk the first
+   section rejected (-q +Q on f) is neither applied nor in any reject file afterwards.  Status is still 1. *)
+Definition rej_options : options :=
+  mkOptions false false [] [] false [] false false false [] (-1)%Z 2%Z false [] (bs "all.rej")
+            false false false false false false false false OBUnset OBUnset MNative RFDefault ROWarn QSUnset [] [].
+Definition sx_bytes2 := cat ["--- f"; "+++ f"; "@@ -2,1 +2,1 @@"; "-a"; "+A"; "@@ -4,1 +4,1 @@"; "-q"; "+Q";
+                             "--- g"; "+++ g"; "@@ -1,1 +1,1 @@"; "-z"; "+d"].
+Example finding_rejects_lost_with_common_reject_file :
+  match process_patch rej_options sx_bytes2 sx_w with
+  | (Ok (code, ev), w') =>
+      code = 1 /\
+      In (OWrite (bs "all.rej") sx_rej) (trace w') /\                                   (* f's reject was written ... *)
+      lookup (fs w') (bs "all.rej") = Some (Reg (cat ["--- g"; "+++ g"; "@@ -1 +1 @@"; "-z"; "+d"]) 420) /\   (* ... and is gone *)
+      lookup (fs w') (bs "f") = Some (Reg (cat ["x"; "A"; "b"; "c"]) 420)
+  | _ => False
+  end.
+Proof. vm_compute. repeat split; try reflexivity. right. left. reflexivity. Qed.
+
+(* F2: the same file patched by two sections of one patch, each with a failed hunk: f.rej holds the second one only *)
+Definition sx_bytes3 := cat ["--- f"; "+++ f"; "@@ -2,1 +2,1 @@"; "-a"; "+A"; "@@ -4,1 +4,1 @@"; "-q"; "+Q";
+                             "--- f"; "+++ f"; "@@ -1,1 +1,1 @@"; "-z"; "+d"].
+Example finding_rejects_lost_same_target_twice :
+  match process_patch default_options sx_bytes3 sx_w with
+  | (Ok (code, ev), w') =>
+      code = 1 /\ In (OWrite (bs "f.rej") sx_rej) (trace w') /\
+      lookup (fs w') (bs "f.rej") = Some (Reg (cat ["--- f"; "+++ f"; "@@ -1 +1 @@"; "-z"; "+d"]) 420)
+  | _ => False
+  end.
+Proof. vm_compute. repeat split; try reflexivity. right. left. reflexivity. Qed.
+
+(* F3: why section_reject_iff asks for backup_name o outf <> reject_path o outf: with -b -z .rej the backup of f is taken
+   after the rejects were written, over them *)
+Definition bk_options : options :=
+  mkOptions true false [] [] false [] false false false [] (-1)%Z 2%Z false [] []
+            false false false false false false false false OBUnset OBUnset MNative RFDefault ROWarn QSUnset (bs ".rej") [].
+Example finding_backup_over_rejects :
+  match process_patch bk_options sx_bytes sx_w with
+  | (Ok (code, ev), w') =>
+      code = 1 /\ In (OWrite (bs "f.rej") sx_rej) (trace w') /\ In (ORename (bs "f") (bs "f.rej")) (trace w') /\
+      lookup (fs w') (bs "f.rej") = Some (Reg (cat ["x"; "a"; "b"; "c"]) 420)
+  | _ => False
+  end.
+Proof. vm_compute. repeat split; try reflexivity. - right. left. reflexivity. - right. right. left. reflexivity. Qed.
